@@ -107,9 +107,27 @@ def run(rep, tier, rng):
         cases.append(("a%d" % i, "libs", fields_alone(a)))
         cases.append(("b%d" % i, "libs", fields_alone(b)))
         meta[i] = (a, b, steps, order)
+    # long histories: one instance fails many hundred times (errors inside procedures, at every depth of the call chain, wrong
+    # argument counts, failing operands of tail calls and of apply), then the other instance computes; anything that
+    # accumulates per failure on the thread shows up there
+    FAILING = [("(define (g) (car '()))", "(g)"), ("(define (g a) a)", "(g)"), ("(define (g n) (if (= n 0) (car '()) (+ 1 (g (- n 1)))))", "(g 25)"),
+               ("(define (g) (g (undefined-zz)))", "(g)"), ("(define (g) (apply + 1 (car '())))", "(g)"),
+               ("(define (g) (vector-ref (vector) 0))", "(map (lambda (q) (g)) '(1 2 3))")]
+    for j, (defn, call) in enumerate(FAILING):
+        reps = 1500 if j != 2 else 200
+        a = [defn] + [call] * reps
+        b = ["(define (count n) (if (= n 0) 0 (+ 1 (count (- n 1)))))", "(count 60)", "(define (sq q) (* q q))", "(sq 7)", "(map sq '(1 2 3))"]
+        steps = ["0:" + x for x in a] + ["new"] + ["1:" + x for x in b] + ["2:(+ 1 2)"]
+        order = [(0, k) for k in range(len(a))] + [("new", None)] + [(1, k) for k in range(len(b))] + [("skip", None)]
+        i = n + j
+        cases.append(("w%d" % i, "world", steps))
+        cases.append(("a%d" % i, "libs", fields_alone(a[:2])))
+        cases.append(("b%d" % i, "libs", fields_alone(b)))
+        meta[i] = (a, b, steps, order)
+    long_n = len(FAILING)
     impl = C.run_hx(cases)
-    model = C.run_driver(cases)
-    for i in range(n):
+    model = C.run_driver([c for c in cases if not (c[0][0] == "w" and int(c[0][1:]) >= n)])
+    for i in range(n + long_n):
         a, b, steps, order = meta[i]
         w = impl.get("w%d" % i, [])
         rep.count()
@@ -125,11 +143,15 @@ def run(rep, tier, rng):
                     rep.violation({"what": "registering a library source on an instance failed", "steps": steps[:k + 1], "result": got})
                     bad = True; break
                 continue
+            if inst == "skip":
+                continue
             if inst == "new":
                 if got != "new-ok":
                     rep.violation({"what": "creating a new interpreter instance failed", "steps": steps[:k + 1], "result": got})
                     bad = True; break
                 continue
+            if i >= n and inst == 0:
+                idx = min(idx, 1)       # the long history repeats one failing call: every repetition fails like the first
             want_r = alone[inst][idx] if idx < len(alone[inst]) else "?"
             if got != want_r:
                 rep.violation({"what": "what one interpreter instance evaluated changed the result of another instance",
@@ -138,6 +160,8 @@ def run(rep, tier, rng):
                 bad = True; break
         if bad:
             continue
+        if i >= n:
+            continue                    # the long histories are run on the real code only
         mw = model.get("w%d" % i, [])
         if [R.norm_result(x) for x in mw] != [R.norm_result(x) for x in w] and not any("FUEL" in x for x in mw):
             rep.violation({"broken": "correspondence Front.worldStep <-> two Interpreter instances", "steps": steps,
@@ -151,7 +175,8 @@ def main(tier, seed):
                        "bundled forms, uses of derived forms and library procedures, colliding definitions and assignments, imports, a library of "
                        "the same name registered with different bodies on each instance, "
                        "failing and unparsable forms) interleaved at random over two instances on one thread, with creation of "
-                       "further instances at random points; distinct = distinct step sequences")
+                       "further instances at random points; plus six long histories in which one instance fails 200-1500 times before the "
+                       "other computes; distinct = distinct step sequences")
     rep.assumptions = ["that the Rust code has no other channel between instances than the inventoried globals is an inventory (grep "
                        "over non-test source), not a theorem"]
     ok = C.standard_proof_phase(rep, MODULES, directed_search=lambda r: run(r, tier, rng))
